@@ -36,6 +36,7 @@ of_real = z3.Function("np:of_real", z3.RealSort(), NP)
 of_kind = z3.Function("np:of_inf", z3.IntSort(), NP)
 of_bool = z3.Function("np:of_bool", z3.BoolSort(), NP)
 of_id = z3.Function("np:of_id", Id, NP)
+of_ref = z3.Function("np:of_ref", Ref, NP)      # a heap object (an optlang Variable of a reaction) used inside an opaque expression
 truthy = z3.Function("np:truthy", NP, z3.BoolSort())
 np_len = z3.Function("np:len", NP, z3.IntSort())
 
@@ -53,6 +54,8 @@ def lift(v):
         return z3.Const("np:None", NP)
     if isinstance(v, VStr):
         return of_id(v.t)
+    if isinstance(v, VRef):
+        return of_ref(v.t)
     if isinstance(v, VConc) and isinstance(v.py, str):
         return of_id(id_lit(v.py))
     if isinstance(v, VConc) and isinstance(v.py, tuple) and v.py[0] == "module":
